@@ -515,6 +515,12 @@ def _argmin(rng, kind, force):
     a = rvals(rng, kind, s, rng.choice(['small', 'tiny']))
     which = _pick(rng, force, ['argmin', 'argmax'])
     axis = _axis(rng, len(s), allow_tuple=False)
+    if rng.random() < 0.35:
+        # >= 3 dimensions and an axis that is neither the last nor the last but one: the lanes must come back in the
+        # row-major order of the REMAINING axes (defect fixed in the repo: swapaxes instead of moveaxis semantics)
+        s = rng.choice([(2, 2, 3), (3, 2, 2), (2, 3, 2), (2, 2, 2, 2)])
+        a = rvals(rng, kind, s, 'small')
+        axis = rng.choice([0, -len(s)] + ([1] if len(s) == 4 else []))
     keep = rng.random() < 0.3
     unary = rng.random() < 0.4
     arg_only = rng.random() < 0.5
